@@ -27,7 +27,7 @@ def describe(tier):
             "the same alphabet, every ordered pair of them drawn from a 14-keyword menu (prefixes of one another, case variants, duplicates), and all "
             "length-3 keywords over {a,A,.}; each (list, data) is given to find_keywords and compared, as a complete list of (start, end, value, "
             "label, type) per keyword, with a reference: leftmost non-overlapping case-insensitive literal search (re.finditer on the escaped keyword) + "
-            "ASCII-alphanumeric neighbour filter + MixedCase truth table from the statement. A generated keyword directory (CRLF, blank lines, nested "
+            "ASCII-alphanumeric neighbour filter + MixedCase truth table from the statement. Keywords next to / inside alphanumeric runs whose length runs over the boundary ladder (0..5000, thorough ..70000). A generated keyword directory (CRLF, blank lines, nested "
             "dir, duplicates) is also loaded through build_registry and its searchers compared on the same data. states = distinct (keyword list, data) "
             "pairs, transitions = keyword occurrences examined by the reference, traces = calls compared. Non-trivial = a pair with >= 1 expected hit."
         ),
@@ -49,7 +49,7 @@ def plan(tier, seed):
     units = [("single", tier, i) for i in range(len(keywords_1_2()))]
     units += [("pair", tier, i) for i in range(len(PAIR_MENU))]
     units += [("triple", tier)]
-    units += [("registry", tier)]
+    units += [("registry", tier), ("runs", tier)]
     return units
 
 
@@ -129,6 +129,16 @@ def run_unit(unit, rec):
                 rec.mark("states", (kw, data), True)
                 check(rec, "t", [kw], data)
         rec.sample({"keywords": [kw], "last_data": data})
+    elif kind == "runs":
+        kws = [b"VirtualAlloc", b"cmd", b"a", b"user-agent", b"a b", b"Q" * 64, b"x" * 65]
+        for n in core.ladder(0, 5000 if tier == "quick" else 70000):
+            for fill in (b"Q", b"7", b"q"):
+                run = fill * n
+                for kw in kws:
+                    for data in (run + kw, kw + run, run + b" " + kw + b"." + run, run + kw + run, run + b"-" + kw.upper() + b"-" + run):
+                        rec.mark("states", 0, True)
+                        check(rec, "api", [kw], data)
+        rec.sample({"keywords": kws, "run_lengths": core.ladder(0, 5000)[-6:]})
     elif kind == "registry":
         d = tempfile.mkdtemp(prefix="c17kw")
         try:
